@@ -158,6 +158,26 @@ class Engine(EngineBase, ExprMixin, CompMixin, CallMixin, FuncMixin, StmtMixin):
                     self.frame_obligations(fin, old, con, modnames)
             else:
                 raise EngineError(f"{o.kind} escapes {target}")
+        # vacuity: some normal exit must be reachable (its path condition satisfiable)
+        normal = [o for o in outs if o.kind in ("ok", "ret")]
+        if normal:
+            # (a quantified path condition is rarely shown 'sat'; what must not happen is that every
+            #  normal exit is *contradictory*, which would discharge anything)
+            reach = z3.unsat
+            for o in normal[:12]:
+                s = z3.Solver()
+                s.set("timeout", 3000)
+                s.add(*o.st.pc)
+                r = s.check()
+                if r != z3.unsat:
+                    reach = z3.sat
+                    break
+            rob = Obligation(f"{con.prop}/{target}/reach", "cover", target, [], z3.BoolVal(True),
+                             "some normal exit is reachable under the precondition", con.prop)
+            rob.result = "discharged" if reach == z3.sat else "unknown"
+            rob.reason = "" if reach == z3.sat else f"no normal exit shown reachable ({reach})"
+            rob.backend, rob.is_cover = "z3", True
+            covers.append(rob)
         return covers + self.obligations[start:]
 
     def exec_cm_generator(self, fdef, st):
@@ -310,7 +330,7 @@ def discharge(ob: Obligation, timeout_ms=10000, use_cvc5=True):
     if getattr(ob, "nonlinear", False):
         configs = [{"tactic": "nlsat"}, {}]
     else:
-        configs = [{}, {"smt.mbqi": False}, {"smt.arith.solver": 2}]
+        configs = [{}, {"smt.mbqi": False}] if timeout_ms >= 8000 else [{}]
     res, model, reason = z3.unknown, None, ""
     for ci, cfg in enumerate(configs):
         if cfg.get("tactic") == "nlsat":
